@@ -1564,7 +1564,7 @@ def run(ctx):
             ctx.seen('generator_rules', f)
         return e, {'shared_uses': g.shared_uses, 'n_local_aggs': g.n_agg}
 
-    N = ctx.pick(900, 9000)
+    N = ctx.pick(900, 6000)
     for i, rng in ctx.cases(N, 'expr'):
         one(i, rng, build_expr, 'expr')
 
@@ -1575,7 +1575,7 @@ def run(ctx):
             ctx.seen('table_ops', f.split(':')[0])
         return e, {'table_ops': feats}
 
-    NT = ctx.pick(150, 1500)
+    NT = ctx.pick(150, 900)
     for i, rng in ctx.cases(NT, 'table'):
         one(i, rng, build_table, 'table')
 
